@@ -243,7 +243,35 @@ def chk_synd(case, note):
     return None
 
 
+# ---------------------------------------------------------------- real frames (validates the reference itself)
+def enum_corpus(ctx):
+    from vlib import corpus
+    for start, _ in corpus.blocks(corpus.adsb(), ctx):
+        yield {"start": start}
+
+
+def chk_corpus(case, note):
+    from vlib import corpus
+    rows = corpus.adsb()[case["start"]:case["start"] + 100]
+    for m, _icao, _tc in rows:
+        v = int(m, 16)
+        if crc24.remainder(v, 112) != 0:
+            return "reference CRC does not accept the real DF17 frame %s: the reference polynomial/bit order is wrong" % m
+        for nm, fn in (("crc", pms.crc), ("crc_legacy", py_common.crc_legacy)):
+            r = call(fn, m)
+            if r != ("ok", 0):
+                return "%s(%s) -> %r for a real DF17 frame (expected 0)" % (nm, m, r)
+        p = call(pms.crc, m, True)
+        if p != ("ok", v & 0xFFFFFF):
+            return "crc(%s, encode=True) -> %r, the frame carries parity %06X" % (m, p, v & 0xFFFFFF)
+    note.evals = 3 * len(rows)
+    note.cls("real-df17")
+    note.nt(True)
+    return None
+
+
 LEGS = [
+    Leg("corpus", chk_corpus, enum=enum_corpus, exhaustive=True, doc="2000 real DF17 frames from the repository's sample data: remainder 0 under the reference and both implementations"),
     Leg("three_way", chk_three_way, strategy=s_frame, quick=24000, thorough=800000,
         doc="crc == bit-serial reference == crc_legacy, both modes, both lengths, three letter cases"),
     Leg("parity_closure", chk_closure, strategy=s_closure, quick=16000, thorough=400000,
